@@ -365,9 +365,9 @@ def cursor_rules(ctx: Ctx, rule: str):
         if isinstance(n, ast.Assign) and norm(n.targets[0]) == "self.currentSlotIdx" and not any(x is n for x in ast.walk(w)):
             init.append(n)
     cnt = {"fwd": 0, "bwd": 0}
-    from .common import enclosing_ifs
+    from .common import branch_of
     for n in init:
-        br = next((b for (i, b) in enclosing_ifs(n, sched.node) if norm(i.test) == "forward"), None)
+        br = branch_of(sched, n, "forward")
         a = affine(n.value, lambda e: isinstance(e, ast.Call) and (dotted(e.func) or "").endswith("dateToIdx"), res)
         if br == "T":
             cnt["fwd"] += 1
